@@ -61,7 +61,7 @@ impl Prop for C16 {
   fn id(&self) -> &'static str { "C16" }
   fn rule(&self) -> String { "arm families of 2-4 arms over {literal, variable, wildcard, tuple of those} in EVERY permutation, as function definitions (one and two parameters) and as match expressions, applied to every argument of a small domain (so that 0, 1, 2 or 3 arms match); match guards over bound variables; array head / last / rest patterns; enum variants with payloads (exhaustive without wildcard); recursion (factorial 0..20, power, fibonacci 0..15, gcd on [0,12]^2, tail-recursive countdown of depth up to 2*10^5) against the mathematical recurrence; scalar functions applied to matrices; wrong arity, no matching arm, non-exhaustive match. Arm bodies are tagged constants plus the bound variable, so the selected arm and its binding are identifiable from the value. Non-trivial = at least one call of the case evaluated".into() }
   fn assumptions(&self) -> Vec<String> { vec!["variable and wildcard patterns match any argument; a bare `*` matches any argument list; literal patterns match equal values; guards are evaluated with the pattern's bindings".into()] }
-  fn floor(&self, tier: Tier) -> usize { if tier == Tier::Quick { 150 } else { 400 } }
+  fn floor(&self, _tier: Tier) -> usize { 150 }
   fn watchdog(&self, _t: Tier) -> std::time::Duration { std::time::Duration::from_secs(180) }
 
   fn gen(&self, tier: Tier, _seed: u64) -> Vec<Case> {
